@@ -174,6 +174,38 @@ def sweep(ctx, n):
             c.style.model3d.data[0].kwargs["x"] = [5, 6]
             if shared or o.style.model3d.data[0].show is not True or o.style.model3d.data[0].kwargs["x"] != [0, 1]:
                 bad("copy-shares-state:lazy-style-values", f"copy of an object with an un-initialised style shares mutable style values with it ({shared[:3]})", {"class": cls})
+        # initialised styles holding mutable values (custom 3d traces with arrays), objects and children of copied collections:
+        # nothing may be shared after copy(); an in-place edit of a trace on either side must stay on that side
+        for j, cls in enumerate(CLASSES[:6]):
+            nps = np.random.default_rng(rng.randrange(2**31))
+            from oracles.sources import params as _params
+            ctor = getattr(magpy.magnet, cls, None) or getattr(magpy.current, cls, None) or getattr(magpy.misc, cls)
+            o = ctor(**_params(cls, nps))
+            o.style.label = "traced"          # style realised before the trace is attached
+            xs = np.array([0.0, 1.0, 2.0])
+            o.style.model3d.add_trace(backend="generic", constructor="Scatter3d", kwargs={"x": xs, "y": [0, 1, 2], "z": [0, 1, 2]}, show=True)
+            o.style.model3d.add_trace(backend="matplotlib", constructor="plot", args=([0, 1], [0, 1], [0, 1]), kwargs={"ls": "--"})
+            target = o
+            if j % 2:
+                target = magpy.Collection(o, magpy.Sensor())
+            c = target.copy()
+            oc = c.children[0] if j % 2 else c
+            done += 1
+            ro, rc = reach(o, stop_at=(target if j % 2 else None,)), reach(oc, stop_at=(c if j % 2 else None,))
+            shared = [type(ro[k]).__name__ for k in ro.keys() & rc.keys()]
+            mem = any(np.shares_memory(a, b) for a in ro.values() for b in rc.values()
+                      if isinstance(a, np.ndarray) and isinstance(b, np.ndarray) and a.size and b.size)
+            side_a, side_b = (o, oc) if j % 3 else (oc, o)
+            t = side_a.style.model3d.data[0]
+            t.show = False
+            t.kwargs["x"][0] = 77.0
+            t.kwargs["extra"] = 1
+            side_a.style.model3d.data[1].kwargs["ls"] = ":"
+            u = side_b.style.model3d.data[0]
+            leaked = (u.show is not True) or float(np.asarray(u.kwargs["x"])[0]) != 0.0 or "extra" in u.kwargs or side_b.style.model3d.data[1].kwargs["ls"] != "--"
+            if shared or mem or leaked:
+                bad("copy-shares-state:model3d-traces", f"copy shares custom 3d-model traces with the original (shared objects {shared[:3]}, array memory {mem}, in-place edit leaked {leaked})",
+                    {"class": cls, "inside_collection": bool(j % 2)})
         # empty label
         s = magpy.Sensor(style_label="")
         try:
